@@ -111,7 +111,9 @@ package webserver
 //@ func checkGlobalAdminToken
 //@   safe
 //@   props C17 C09 C12
-//@   modifies nothing
+//@   requires token-store-free: !held(token.tokens.mu)
+//@   modifies held(token.tokens.mu), token.tokens.modTime, token.tokens.fileSize, token.tokens.tokens
+//@   ensures token-store-free: !held(token.tokens.mu)
 //@   -- C09/C17: only a token that is valid for the ROOT scope (which a stateful token covers only if it is a root token that includes subgroups)
 //@   -- and that carries the "admin" permission is a global administrator token
 //@   assert at call Check root-scope: arg_group == "" && arg_host == first(callresult("GetConfiguration", 1)).CanonicalHost
@@ -121,7 +123,9 @@ package webserver
 //@ func isAdminOrExplicitPassword
 //@   safe
 //@   props C17 C12
-//@   modifies nothing
+//@   requires token-store-free: !held(token.tokens.mu)
+//@   modifies held(token.tokens.mu), token.tokens.modTime, token.tokens.fileSize, token.tokens.tokens
+//@   ensures token-store-free: !held(token.tokens.mu)
 //@   -- C17: the credentials presented are the ones examined, for the group addressed
 //@   assert at call globalAdminMatch presented: arg_username == *creds.Username && arg_password == creds.Password
 //@   assert at call checkGlobalAdminToken presented: arg_tok == creds.Token && groupname == ""
@@ -146,7 +150,9 @@ package webserver
 //@   safe
 //@   props C17 C12
 //@   requires nonnil: w != nil && r != nil
-//@   modifies ghostint("status", w), icall("http.ResponseWriter.Header", w)[*]
+//@   requires token-store-free: !held(token.tokens.mu)
+//@   modifies ghostint("status", w), icall("http.ResponseWriter.Header", w)[*], held(token.tokens.mu), token.tokens.modTime, token.tokens.fileSize, token.tokens.tokens
+//@   ensures token-store-free: !held(token.tokens.mu)
 //@   -- C17: the decision is isAdminOrExplicitPassword's, for this group, with NO user named (so no explicit-password exception),
 //@   -- on the credentials of this request; a refusal has answered 401
 //@   assert at call isAdminOrExplicitPassword this-request: arg_groupname == groupname && arg_user == ""
@@ -160,7 +166,9 @@ package webserver
 //@   safe
 //@   props C17 C12
 //@   requires nonnil: w != nil && r != nil
-//@   modifies ghostint("status", w), icall("http.ResponseWriter.Header", w)[*]
+//@   requires token-store-free: !held(token.tokens.mu)
+//@   modifies ghostint("status", w), icall("http.ResponseWriter.Header", w)[*], held(token.tokens.mu), token.tokens.modTime, token.tokens.fileSize, token.tokens.tokens
+//@   ensures token-store-free: !held(token.tokens.mu)
 //@   assert at call isAdminOrExplicitPassword this-request: arg_groupname == groupname && arg_user == user
 //@        && arg_creds.Token == callresult("parseBearerToken", 1)
 //@        && (third(callresult("BasicAuth", 1)) ? arg_creds.Username != nil && *arg_creds.Username == first(callresult("BasicAuth", 1)) && arg_creds.Password == second(callresult("BasicAuth", 1)) : arg_creds.Username == nil)
@@ -176,7 +184,7 @@ package webserver
 //@   safe
 //@   props C17 C12
 //@   requires nonnil: w != nil && r != nil && r.URL != nil
-//@   requires unlocked: !held(group.groups.mu)
+//@   requires unlocked: !held(group.groups.mu) && !held(token.tokens.mu)
 //@   modifies *
 //@   -- C17: statistics are disclosed only to a server administrator
 //@   assert at call GetGroups admin: callresult("checkAdmin", 1)
@@ -187,7 +195,7 @@ package webserver
 //@   props C17 C12
 //@   requires nonnil: w != nil && r != nil && r.URL != nil
 //@   -- an HTTP handler runs on a goroutine of its own and holds no lock when it starts
-//@   requires unlocked: !held(group.groups.mu)
+//@   requires unlocked: !held(group.groups.mu) && !held(token.tokens.mu)
 //@   modifies *
 //@   -- C17: every read or write of a group definition follows a successful administrator check for THAT group
 //@   assert at call GetDescriptionNames admin: callresult("checkAdmin", 1)
@@ -208,7 +216,7 @@ package webserver
 //@   safe
 //@   props C17 C12
 //@   requires nonnil: w != nil && r != nil && r.URL != nil
-//@   requires unlocked: !held(group.groups.mu)
+//@   requires unlocked: !held(group.groups.mu) && !held(token.tokens.mu)
 //@   modifies *
 //@   assert at call checkAdmin this-group: arg_groupname == g
 //@   assert at call GetUsers admin: callresult("checkAdmin", 1) && arg0 == g
@@ -218,7 +226,7 @@ package webserver
 //@   safe
 //@   props C17 C12
 //@   requires nonnil: w != nil && r != nil && r.URL != nil
-//@   requires unlocked: !held(group.groups.mu)
+//@   requires unlocked: !held(group.groups.mu) && !held(token.tokens.mu)
 //@   modifies *
 //@   assert at call checkAdmin this-group: arg_groupname == g
 //@
@@ -227,7 +235,7 @@ package webserver
 //@   props C17 C12
 //@   requires nonnil: w != nil && r != nil && r.URL != nil
 //@   -- an HTTP handler runs on a goroutine of its own and holds no lock when it starts
-//@   requires unlocked: !held(group.groups.mu)
+//@   requires unlocked: !held(group.groups.mu) && !held(token.tokens.mu)
 //@   modifies *
 //@   assert at call checkAdmin this-group: arg_groupname == g
 //@   assert at call GetSanitisedUser admin: callresult("checkAdmin", 1) && arg0 == g
@@ -243,7 +251,7 @@ package webserver
 //@   props C17 C12
 //@   requires nonnil: w != nil && r != nil && r.URL != nil
 //@   -- an HTTP handler runs on a goroutine of its own and holds no lock when it starts
-//@   requires unlocked: !held(group.groups.mu)
+//@   requires unlocked: !held(group.groups.mu) && !held(token.tokens.mu)
 //@   modifies *
 //@   -- C17: a password is changed only for an administrator or for the user presenting the current password of THAT user
 //@   assert at call checkAdmin this-group: arg_groupname == g
@@ -255,7 +263,7 @@ package webserver
 //@   props C17 C12
 //@   requires nonnil: w != nil && r != nil && r.URL != nil
 //@   -- an HTTP handler runs on a goroutine of its own and holds no lock when it starts
-//@   requires unlocked: !held(group.groups.mu)
+//@   requires unlocked: !held(group.groups.mu) && !held(token.tokens.mu)
 //@   modifies *
 //@   assert at call checkAdmin this-group: arg_groupname == g
 //@   assert at call SetKeys admin: callresult("checkAdmin", 1) && arg0 == g
@@ -264,7 +272,7 @@ package webserver
 //@   safe
 //@   props C17 C12
 //@   requires nonnil: w != nil && r != nil && r.URL != nil
-//@   requires unlocked: !held(group.groups.mu)
+//@   requires unlocked: !held(group.groups.mu) && !held(token.tokens.mu)
 //@   modifies *
 //@   loopmodifies 1: full(toknames)
 //@   invariant loop 1 range: -1 <= rangeindex && rangeindex < len(tokens) && len(toknames) == len(tokens) && !isnil(toknames)
